@@ -28,7 +28,9 @@ def replay_kani(harness, timeout_s=900):
     if not tests:
         return None
     try:
-        p = subprocess.run(["cargo", "kani", "playback", "-Z", "concrete-playback", "--", tests[0]],
+        # one playback test is generated per failed check *and* per satisfied cover property:
+        # run them all (name prefix filter); the failure reproduces if any of them fails natively
+        p = subprocess.run(["cargo", "kani", "playback", "-Z", "concrete-playback", "--", "kani_concrete_playback_%s_" % harness],
                            cwd=dst, env=env, capture_output=True, text=True, timeout=timeout_s)
     except subprocess.TimeoutExpired:
         return None
@@ -37,7 +39,7 @@ def replay_kani(harness, timeout_s=900):
         fh.write(out)
     if re.search(r"test result: FAILED|panicked at", out):
         return True
-    if re.search(r"test result: ok\. 1 passed", out):
+    if re.search(r"test result: ok\. [1-9]\d* passed", out):
         return False
     return None
 
